@@ -218,3 +218,9 @@ TEXT["C02"]["level"] += (" The packbits partial decoder is a proved stage of the
 TEXT["C20"]["level"] += (" The listings are programs of the operation-level model as well (Props/C20List: a fault at any position is an error for every listing method, and a listing that succeeds under any failing set is complete).")
 TEXT["C15"]["level"] += (" The bounds test of a shard index entry is modelled on 64-bit words as written (checked addition) and proved equal to the unbounded test for all values; an accepted entry denotes a slice inside the value (Props/C15Entry).")
 TEXT["C03"]["level"] += (" fixedscaleoffset has a model and theorems now (Props/C03Fso: the rational specification is within 1/(2*scale) with equality exactly at ties; the float computation equals it whenever its intermediates are representable; integer types with scale 1 are lossless exactly when x-offset fits both types; the advertised fill value, data type and shape are those of the encoding), with encoded bytes and decoded values predicted exactly for the integer class.")
+TEXT["C13"]["level"] += (" Consolidated metadata is inside the model (Props/C13Cons: round trips, fixed points including order independence of the map, Node::consolidate_metadata lists exactly the descendants of the hierarchy model with their stored documents) and so are the builders (Props/C13Build: exact success condition and document of ArrayBuilder::build, array.builder().build() denotes the same array); both are predicted line by line.")
+TEXT["C07"]["level"] += (" Shards altered behind the API (a wrong index entry inside the value) are read through both forms: whatever the answer, it must be the same.")
+TEXT["C17"]["level"] += (" Asynchronous multi-chunk reads are recorded and judged by tiling as well; regions beyond the array (and beyond a rectangular grid) are included.")
+TEXT["C02"]["note"] += " Every request is executed by two builds of the harness (zarrs with and without its async feature: the cfg(not(feature = async)) copies of the default partial decoders/encoders are what a default-feature build runs)."
+TEXT["C04"]["note"] += " Every request is executed by two builds of the harness (zarrs with and without its async feature: the cfg(not(feature = async)) copies of the default partial decoders/encoders are what a default-feature build runs)."
+TEXT["C05"]["note"] += " Every request is executed by two builds of the harness (zarrs with and without its async feature: the cfg(not(feature = async)) copies of the default partial decoders/encoders are what a default-feature build runs)."
